@@ -12,6 +12,7 @@ from harness import common
 from harness.common import Model
 
 PID = "C19"
+TRANSLATORS = ["T-opcodes"]
 ALPHABET = [0x00, 0x5B, 0x60, 0x61, 0x7F, 0x5F, 0xFE, 0x56]
 
 PARTIAL = None
@@ -274,7 +275,7 @@ def compare(rep, case, a, b, what):
 
 
 def run(rep, tier):
-    b = common.build_property(PID)
+    b = common.build_property(PID, TRANSLATORS)
     built = common.standard_obligations(rep, PID, b)
     exe = None
     if b["make_ok"]:
